@@ -19,7 +19,8 @@ extern "C" bool xc_CBlockIndexWorkComparator(const xc::xc_CBlockIndex*, const xc
 #include <vector>
 struct Script { std::vector<int> fmw; std::vector<int> step_ok, step_invalid, step_newtip, reached, worse; size_t i_fmw{0}, i_step{0}, i_r{0}, i_w{0}; int steps{0}; };
 static Script* g_sc; static CBlockIndex g_pool_real[4]; static xc::xc_CBlockIndex g_pool_x[4];
-template <class T> static T pick(std::vector<T>& v, size_t& i) { T x = v[i % v.size()]; i++; return x; }
+// scripted verdicts; once a script is used up every stub answers so that the round ends (no most-work candidate, target reached, tip not worse) -- a cyclic script could otherwise keep the real do-while going forever
+template <class T> static T pick(std::vector<T>& v, size_t& i, T after) { T x = i < v.size() ? v[i] : after; i++; return x; }
 namespace standin {
 struct CBlock { uint256 GetHash() const { return uint256{}; } };
 struct ConnectedBlock { CBlockIndex* index; std::shared_ptr<const CBlock> block; };
@@ -28,11 +29,11 @@ struct Opts { Sig* signals{nullptr}; }; struct Man { Opts m_options; };
 struct ChainT { CBlockIndex* tip{nullptr}; CBlockIndex* Tip() const { return tip; } };
 enum class ChainstateRole { NORMAL };
 struct BlockValidationState {};
-struct CBlockIndexWorkComparator { bool operator()(const CBlockIndex*, const CBlockIndex*) const { return pick(g_sc->worse, g_sc->i_w) != 0; } };
+struct CBlockIndexWorkComparator { bool operator()(const CBlockIndex*, const CBlockIndex*) const { return pick(g_sc->worse, g_sc->i_w, 0) != 0; } };
 struct Chainstate {
     ChainT m_chain; Man m_chainman; ChainstateRole GetRole() const { return ChainstateRole::NORMAL; }
-    CBlockIndex* FindMostWorkChain() { int k = pick(g_sc->fmw, g_sc->i_fmw); return k < 0 ? nullptr : &g_pool_real[k]; }
-    bool ReachedTarget() { return pick(g_sc->reached, g_sc->i_r) != 0; }
+    CBlockIndex* FindMostWorkChain() { int k = pick(g_sc->fmw, g_sc->i_fmw, -1); return k < 0 ? nullptr : &g_pool_real[k]; }
+    bool ReachedTarget() { return pick(g_sc->reached, g_sc->i_r, 1) != 0; }
     bool ActivateBestChainStep(BlockValidationState&, CBlockIndex&, const std::shared_ptr<const CBlock>&, bool& fInvalidFound, std::vector<ConnectedBlock>&)
     { g_sc->steps++; size_t i = g_sc->i_step++; fInvalidFound = g_sc->step_invalid[i % g_sc->step_invalid.size()]; int nt = g_sc->step_newtip[i % g_sc->step_newtip.size()]; if (nt >= 0) m_chain.tip = &g_pool_real[nt]; return g_sc->step_ok[i % g_sc->step_ok.size()]; }
     int round(CBlockIndex* pindexMostWork, CBlockIndex* starting_tip, std::shared_ptr<const CBlock> pblock) {
@@ -45,11 +46,11 @@ struct Chainstate {
 };
 }
 extern "C" { extern const xc::xc_CBlockIndex* g_tip; int xc_ActivateBestChain_round(const xc::xc_CBlockIndex*, const xc::xc_CBlockIndex*);
-  const xc::xc_CBlockIndex* FindMostWorkChain_stub(void) { int k = pick(g_sc->fmw, g_sc->i_fmw); return k < 0 ? nullptr : &g_pool_x[k]; }
+  const xc::xc_CBlockIndex* FindMostWorkChain_stub(void) { int k = pick(g_sc->fmw, g_sc->i_fmw, -1); return k < 0 ? nullptr : &g_pool_x[k]; }
   struct xConnected { size_t n; };
   bool ActivateBestChainStep_stub(const xc::xc_CBlockIndex*, bool* inv, xConnected* cl) { cl->n = 0; g_sc->steps++; size_t i = g_sc->i_step++; *inv = g_sc->step_invalid[i % g_sc->step_invalid.size()]; int nt = g_sc->step_newtip[i % g_sc->step_newtip.size()]; if (nt >= 0) g_tip = &g_pool_x[nt]; return g_sc->step_ok[i % g_sc->step_ok.size()]; }
-  bool ReachedTarget_stub(void) { return pick(g_sc->reached, g_sc->i_r) != 0; }
-  bool WorkComparator_stub(const xc::xc_CBlockIndex*, const xc::xc_CBlockIndex*) { return pick(g_sc->worse, g_sc->i_w) != 0; } }
+  bool ReachedTarget_stub(void) { return pick(g_sc->reached, g_sc->i_r, 1) != 0; }
+  bool WorkComparator_stub(const xc::xc_CBlockIndex*, const xc::xc_CBlockIndex*) { return pick(g_sc->worse, g_sc->i_w, 0) != 0; } }
 #define BAD(...) do { rv::g_stats.real_violations++; if (rv::g_stats.real_violations <= 8) { std::printf("REAL-VIOLATION " __VA_ARGS__); std::printf("\n"); } } while (0)
 #define DIS(...) do { rv::g_stats.disagreements++; if (rv::g_stats.disagreements <= 8) { std::printf("DISAGREE " __VA_ARGS__); std::printf("\n"); } } while (0)
 int main(int argc, char** argv)
